@@ -12,7 +12,8 @@ import os
 import re
 import vlib
 
-PROOFS = ["MgProof.C18.Lemmas", "MgProof.C18.LemmasSeq", "MgProof.C18.Props"]
+PROOFS = ["MgProof.C18.Lemmas", "MgProof.C18.LemmasOps", "MgProof.C18.LemmasNC", "MgProof.C18.LemmasEv",
+          "MgProof.C18.LemmasSeq", "MgProof.C18.LemmasFam", "MgProof.C18.Props"]
 GREP = ["MgModel/C18", "MgProof/C18", "Drv/C18.lean"]
 WRAP = ("-Wl,--wrap=malloc,--wrap=calloc,--wrap=realloc,--wrap=aligned_alloc,--wrap=free,"
         "--wrap=eventfd,--wrap=epoll_create,--wrap=pipe,--wrap=socket,--wrap=close")
